@@ -7,6 +7,7 @@ import CatiiProofs.SetUpdates
 import CatiiProofs.Update
 import CatiiProofs.Queries
 import CatiiProofs.FromArrayWf
+import CatiiProofs.ColumnStack
 /-!
 # C06 — index operations track NumPy on the dense array over any history
 
@@ -17,10 +18,10 @@ far are `copy`, `shift_common()` / `shift_common(v)` (identity on the dense arra
 row counts incl. 0, while the combined rows fit 32 bits), `filtered(mask, n)` (boolean row selection, any
 mask), `update(entries)` (cell assignment by any consistent dictionary of cells, incl. cells set to the
 common value), the three entry-wise set updates (through the verified kernels of C08), the forced queries `get(key, force=True)` /
-`common_rowids` and construction from
+`common_rowids`, `column_stack` (= `numpy.column_stack`, any mix of inputs and commons) and construction from
 arrays (C01);
 `history_partial` lifts them to arbitrary finite sequences against a NumPy-side specification
-(`specRun`).  The remaining operations of the property (sliced, slices1d, reindexed, collapsed, column_stack,
+(`specRun`).  The remaining operations of the property (sliced, slices1d, reindexed, collapsed,
 `items`/`to_dict(force=True)`) are modelled in `CatiiModel/IIndex.lean` statement by statement and are tied to
 the real code by the correspondence harness after **every** step of every generated history,
 with the NumPy reference semantics as the oracle on the real code; their refinement lemmas are
@@ -233,6 +234,18 @@ theorem difference_update_entrywise (i : IIndex) (other : List (Key × Rows)) (h
       ∀ k r, Listed res.entries k r ↔ Listed i.entries k r ∧ ¬ Listed other k r := by
   obtain ⟨res, h1, h2, h3, _, _, _, h6⟩ := differenceUpdate_spec i other h.keys h.sorted ho
   exact ⟨res, h1, h2, h3, h6⟩
+
+/-! ### column_stack -/
+
+/-- `column_stack(indexes, new_common)` is `numpy.column_stack` of the dense arrays (`stackAt`: column `col`
+belongs to the first input whose width covers it), for any mix of 1-D and 2-D inputs with any common values,
+whether the stack's common value is given or computed from the sparsities -/
+theorem column_stack_is_numpy_column_stack (first : IIndex) (tl : List IIndex) (newCommon : Option Int)
+    (r : IIndex) (n : Nat) (hall : ∀ x ∈ first :: tl, WF x ∧ x.ndim ≤ 2 ∧ x.nrows = n)
+    (h : columnStack (first :: tl) newCommon = .ok r) :
+    WF r ∧ ∃ total, r.shape = [n, total] ∧
+      ∀ row < n, ∀ col < total, denseAt r row [(col : Int)] = stackAt (first :: tl) row col r.common :=
+  columnStack_refines first tl newCommon r n hall h
 
 /-! ### the forced queries -/
 
